@@ -48,6 +48,7 @@ const (
 )
 
 var unary = []kind{kErrorf, kFatal, kWrapA, kWrapC, kWithCodeB, kOpaque}
+
 // kErrorf2 (two %w verbs in one cerrors.Errorf) is NOT part of the alphabet: cerrors.Errorf is xerrors.Errorf, which
 // documents a single %w operand. Call sites that use it anyway are found and probed by TestVerifC20Sites.
 var binary = []kind{kJoin}
@@ -72,10 +73,10 @@ func (t *tree) String() string {
 }
 
 var (
-	codeA = conduiterr.CodeNotFound             // Validation bucket
-	codeB = conduiterr.CodeUnavailable          // Environment bucket
-	codeC = conduiterr.CodeInternal             // Runtime bucket
-	stLeaf = codes.AlreadyExists                // Validation bucket
+	codeA  = conduiterr.CodeNotFound    // Validation bucket
+	codeB  = conduiterr.CodeUnavailable // Environment bucket
+	codeC  = conduiterr.CodeInternal    // Runtime bucket
+	stLeaf = codes.AlreadyExists        // Validation bucket
 )
 
 func build(t *tree) error {
